@@ -190,4 +190,18 @@ func init() {
 		"\t\t\tposition := sort.SearchStrings(existingSeqhashes, seqhashConstruct)\n\t\t\texists = position < len(existingSeqhashes) && existingSeqhashes[position] == seqhashConstruct\n", "STATE/search-unsorted")
 	fire("C15", "file-read-through-a-size-limit", pj, `(?s)"encoding/json"\n(.*?)\tfile, _ := ioutil\.ReadFile\(path\)\n`,
 		"\"encoding/json\"\n\t\"io\"\n\t\"os\"\n${1}\thandle, _ := os.Open(path)\n\tfile, _ := ioutil.ReadAll(io.LimitReader(handle, 1<<20))\n\thandle.Close()\n", "STATE/truncating-read")
+	pm := "primers/primers.go"
+	fire("C17", "bans-checked-by-literals-over-the-range-variable", pm, `\tdebruijn := NucleobaseDeBruijnSequence\(maxSubSequence\)\n\tfor barcodeNum := 0;`,
+		"\tdebruijn := NucleobaseDeBruijnSequence(maxSubSequence)\n\tfor _, bannedSequence := range bannedSequences {\n\t\tbannedFunctions = append(bannedFunctions, func(barcode string) bool { return !strings.Contains(barcode, bannedSequence) })\n\t}\n\tfor barcodeNum := 0;", "STATE/loopvar-capture")
+	silent("C17", "bans-checked-by-literals-over-a-copy", pm, `\tdebruijn := NucleobaseDeBruijnSequence\(maxSubSequence\)\n\tfor barcodeNum := 0;`,
+		"\tdebruijn := NucleobaseDeBruijnSequence(maxSubSequence)\n\tfor _, bannedSequence := range bannedSequences {\n\t\tban := bannedSequence\n\t\tbannedFunctions = append(bannedFunctions, func(barcode string) bool { return !strings.Contains(barcode, ban) })\n\t}\n\tfor barcodeNum := 0;")
+	fire("C20", "gzip-reader-pooled-while-parser-runs", "io/uniprot/uniprot.go", `(?s)import \(\n(.*?)\nfunc Read\((.*?)\tgo Parse\(unzippedBytes, entries, decoderErrors\)\n`,
+		"import (\n\t\"sync\"\n${1}\nvar gzipReaders sync.Pool\n\nfunc Read(${2}\tdefer gzipReaders.Put(unzippedBytes)\n\tgo Parse(unzippedBytes, entries, decoderErrors)\n", "STATE/pool-to-goroutine")
+	onceFirst := "var palindromeOnce sync.Once\nvar palindromeOfFirst bool\n\nfunc CutWithEnzyme(seq Part, directional bool, enzyme Enzyme) []Fragment {\n${1}\tpalindromeOnce.Do(func() { palindromeOfFirst = checks.IsPalindromic(enzyme.RecognitionSite) })\n\tpalindromic := palindromeOfFirst\n"
+	fire("C10", "palindrome-decided-once-for-the-first-enzyme", cl, cutHead, onceFirst, "STATE/scratch")
+	fire("C10", "palindrome-looked-up-by-name-stored-by-site", cl, cutHead, "var palindromeMemo sync.Map\n\nfunc CutWithEnzyme(seq Part, directional bool, enzyme Enzyme) []Fragment {\n${1}\tvar palindromic bool\n\tif known, ok := palindromeMemo.Load(enzyme.Name); ok {\n\t\tpalindromic = known.(bool)\n\t} else {\n\t\tpalindromic = checks.IsPalindromic(enzyme.RecognitionSite)\n\t\tpalindromeMemo.Store(enzyme.RecognitionSite, palindromic)\n\t}\n", "STATE/memo-key")
+	fire("C05", "letters-cut-to-a-byte-before-the-alphabet-test", sh, `!strings\.Contains\("ATUGCYRSWKMBDHVNZ", string\(char\)\)`, `strings.IndexByte("ATUGCYRSWKMBDHVNZ", byte(char)) < 0`, "GUARD/alphabet test for DNA")
+	fire("C15", "html-escapes-undone-in-the-written-document", pj, `(?s)"encoding/json"\n(.*?)\tfile, _ := json\.MarshalIndent\(sequence, "", " "\)\n`,
+		"\"bytes\"\n\t\"encoding/json\"\n${1}\tfile, _ := json.MarshalIndent(sequence, \"\", \" \")\n\tfile = bytes.ReplaceAll(file, []byte(\"\\\\u003e\"), []byte(\">\"))\n", "WRAPPERS/JSON text is not edited")
+	fire("C14", "single-hash-lines-skipped", "io/gff/gff.go", `strings\.HasPrefix\(line, "##"\)`, `strings.HasPrefix(line, "#")`, "FIELDMAP/Parse:feature lines")
 }
